@@ -256,6 +256,11 @@ STATS = dict(empty_statements=0)
 def render(root, rng=None, **kw):
     em = Emitter(rng, **kw)
     em.node(root)
+    if em.layout == 'random' and em.comments and rng.random() < 0.2:
+        # what follows the last statement: blanks, a block comment, or a line comment that the end of the
+        # text (not a line break) terminates
+        em._write(rng.choice((' ', '\n', ' // the end', '// x', ' /* bye */', '\n//', '\t\n\n')))
+        STATS['trailing'] = STATS.get('trailing', 0) + 1
     STATS['empty_statements'] += em.empty_statements
     return em.text()
 
